@@ -22,6 +22,10 @@
 //	    G<n>   (any number, right after b<banner>, vias D and M) BEFORE the CONNECT the client does a
 //	           plain proxy exchange on the SAME kept-alive connection: GET http://<origin>/shaped/<n>,
 //	           answered with n bytes and a Content-Length; nothing of it may leak into the tunnel
+//	    Zc|Zt|Zb (right after b<banner>) the client's / target's / both ends' reader is SLOW: 32 KiB
+//	           reads with 2 ms in between, so that megabytes are still queued when the sender closes
+//	    Kp|Kt  (right after b<banner>) the proxies dial plain *net.TCPConn / through the close-recording
+//	           wrapper, instead of the default choice by hash
 //	    early  number of client payload bytes written in the SAME write as the CONNECT head;
 //	           e<n>h: the client also half-closes right then, before the CONNECT response
 //	           (= an implicit first phase "ch/t", which gets its own checkpoint)
@@ -29,6 +33,7 @@
 //	           accept; F: in the same write as the downstream proxy's 200 head)
 //	    phase  c<writes>[h|f]/t<writes>[h|f]   both sides run concurrently, then a checkpoint
 //	           writes = comma separated <size>[x<count>][~<pause_ms>]
+//	           a write entry I = stay idle for 2.5 x the grace period of this run
 //	           a side may also be the single letter S: it streams (32 KiB writes) until a write
 //	           fails or the grace period is over, while the other side aborts (a) in that phase
 //	           h = CloseWrite after the writes, f = full Close after the writes,
@@ -42,6 +47,10 @@
 //	           "GET http://<canary>/from-dead-tunnel", Pr raw bytes without a newline — until a
 //	           write fails (the proxy closed the client connection) or the grace period ends;
 //	           a canary origin records whether anything reached it
+//	MULTI <via> ( "|" e<early> b<banner> <phase>* )+   2..4 tunnels at once through ONE proxy and ONE
+//	             client-facing listener (vias D, M with any listener suffix); every tunnel is run and judged
+//	             as a TUN case of its own (OUT: the tunnels' outputs separated by "|"; R is not taken, the
+//	             proxy is shared; K is per tunnel): no tunnel may depend on another tunnel's progress
 //	DOWN <code><b|c|n>  the scripted downstream proxy refuses: status <code> with a 13-byte body
 //	             and Content-Length (b), with Content-Length: 0 (c), or with neither (n), then
 //	             closes.  OUT s<status> B<body bytes the client got> E1|E0 (client saw the end)
@@ -104,7 +113,10 @@ import (
 
 // ---------------------------------------------------------------- script
 
-type wr struct{ size, count, pause int }
+type wr struct {
+	size, count, pause int
+	idle               bool
+}
 
 type side struct {
 	ws     []wr
@@ -133,6 +145,8 @@ type tcase struct {
 	shapeAt       int   // +t<B>
 	pre           []int // G<n>
 	tracked       bool
+	slowC, slowT  bool
+	multi         bool // one of several tunnels through a shared proxy: no R
 	phases        []phase
 }
 
@@ -150,6 +164,10 @@ func parseSide(s string) (side, error) {
 		return sd, nil
 	}
 	for _, p := range strings.Split(s, ",") {
+		if p == "I" {
+			sd.ws = append(sd.ws, wr{idle: true})
+			continue
+		}
 		w := wr{count: 1}
 		if i := strings.IndexByte(p, '~'); i >= 0 {
 			v, err := strconv.Atoi(p[i+1:])
@@ -229,6 +247,21 @@ func parseTun(in []string) (*tcase, error) {
 	h := fnv.New32a()
 	h.Write([]byte(strings.Join(in, " ")))
 	tc.tracked = h.Sum32()%4 != 0
+	for len(in) > 4 && (in[4] == "Zc" || in[4] == "Zt" || in[4] == "Zb" || in[4] == "Kp" || in[4] == "Kt") {
+		switch in[4] {
+		case "Zc":
+			tc.slowC = true
+		case "Zt":
+			tc.slowT = true
+		case "Zb":
+			tc.slowC, tc.slowT = true, true
+		case "Kp":
+			tc.tracked = false
+		case "Kt":
+			tc.tracked = true
+		}
+		in = append(append([]string{}, in[:4]...), in[5:]...)
+	}
 	for len(in) > 4 && len(in[4]) > 1 && in[4][0] == 'G' {
 		n, err := strconv.Atoi(in[4][1:])
 		if err != nil || n < 0 || n > 1<<22 || tc.via == "F" || tc.lkind == 's' {
@@ -296,19 +329,26 @@ func fill(b []byte, d uint32) {
 // --------------------------------------------------------------- one end
 
 type end struct {
-	n     int64 // bytes received
-	bad   int32 // 1 = received bytes are not the expected prefix
-	eof   int32 // 0 none, 1 clean EOF, 2 error
-	local int32 // 1 = we closed the socket ourselves
-	wdone int64 // bytes written so far by this end's writer
-	sfail int32 // streaming: 1 = a write failed, 2 = still writing when the grace period ended
+	n      int64 // bytes received
+	bad    int32 // 1 = received bytes are not the expected prefix
+	eof    int32 // 0 none, 1 clean EOF, 2 error
+	local  int32 // 1 = we closed the socket ourselves
+	wdone  int64 // bytes written so far by this end's writer
+	idling int32 // 1 while this end's writer sits out a scripted idle period
+	sfail  int32 // streaming: 1 = a write failed, 2 = still writing when the grace period ended
 }
 
-func (e *end) reader(r io.Reader, want []byte, wg *sync.WaitGroup) {
+func (e *end) reader(r io.Reader, want []byte, wg *sync.WaitGroup, slow bool) {
 	defer wg.Done()
 	buf := make([]byte, 64<<10)
+	if slow {
+		buf = buf[:32<<10]
+	}
 	for {
 		k, err := r.Read(buf)
+		if slow && k > 0 {
+			time.Sleep(2 * time.Millisecond)
+		}
 		if k > 0 {
 			n := int(atomic.LoadInt64(&e.n))
 			if n+k > len(want) || !bytes.Equal(buf[:k], want[n:n+k]) {
@@ -391,7 +431,7 @@ func writer(conn net.Conn, e *end, data []byte, off int, sd side, wg *sync.WaitG
 		conn.Close()
 		return
 	}
-	writeAll(conn, e, data, off, sd)
+	writeAll(conn, e, data, off, sd, streamFor)
 	close(mine)
 	switch sd.shut {
 	case 'h':
@@ -415,8 +455,14 @@ func writer(conn net.Conn, e *end, data []byte, off int, sd side, wg *sync.WaitG
 	}
 }
 
-func writeAll(conn net.Conn, e *end, data []byte, off int, sd side) {
+func writeAll(conn net.Conn, e *end, data []byte, off int, sd side, grace time.Duration) {
 	for _, w := range sd.ws {
+		if w.idle {
+			atomic.StoreInt32(&e.idling, 1)
+			time.Sleep(grace * 5 / 2)
+			atomic.StoreInt32(&e.idling, 0)
+			continue
+		}
 		for i := 0; i < w.count; i++ {
 			if w.size > 0 {
 				conn.SetWriteDeadline(time.Now().Add(20 * time.Second))
@@ -606,30 +652,34 @@ func runDown(arg string, grace time.Duration) []string {
 
 var graceMS = 2000
 
-// trackDial makes the proxies dial through a wrapper that records Close().
+// tracker makes the proxies dial through a wrapper that records Close(), per
+// address (only connections to watched addresses belong to a tunnel).
+type tcount struct{ dialed, closed int32 }
+
 type tracker struct {
-	dialed, closed int32
-	mu             sync.Mutex
-	addrs          map[string]bool // only connections to these addresses belong to the tunnel
+	mu    sync.Mutex
+	addrs map[string]*tcount
 }
 
 func (t *tracker) watch(addr string) {
 	t.mu.Lock()
 	if t.addrs == nil {
-		t.addrs = map[string]bool{}
+		t.addrs = map[string]*tcount{}
 	}
-	t.addrs[addr] = true
+	if t.addrs[addr] == nil {
+		t.addrs[addr] = &tcount{}
+	}
 	t.mu.Unlock()
 }
 
 type trackedConn struct {
 	*net.TCPConn
-	t    *tracker
+	c    *tcount
 	once sync.Once
 }
 
 func (c *trackedConn) Close() error {
-	c.once.Do(func() { atomic.AddInt32(&c.t.closed, 1) })
+	c.once.Do(func() { atomic.AddInt32(&c.c.closed, 1) })
 	return c.TCPConn.Close()
 }
 
@@ -640,18 +690,27 @@ func (t *tracker) dial(network, addr string) (net.Conn, error) {
 	}
 	tc, ok := c.(*net.TCPConn)
 	t.mu.Lock()
-	mine := t.addrs[addr]
+	cnt := t.addrs[addr]
 	t.mu.Unlock()
-	if !ok || !mine {
+	if !ok || cnt == nil {
 		return c, nil
 	}
-	atomic.AddInt32(&t.dialed, 1)
-	return &trackedConn{TCPConn: tc, t: t}, nil
+	atomic.AddInt32(&cnt.dialed, 1)
+	return &trackedConn{TCPConn: tc, c: cnt}, nil
 }
 
-func (t *tracker) allClosedWithin(d time.Duration) bool {
+func (t *tracker) allClosedWithin(d time.Duration, addrs []string) bool {
 	for end := time.Now().Add(d); ; {
-		if n := atomic.LoadInt32(&t.dialed); n > 0 && atomic.LoadInt32(&t.closed) == n {
+		ok := true
+		t.mu.Lock()
+		for _, a := range addrs {
+			c := t.addrs[a]
+			if c == nil || atomic.LoadInt32(&c.dialed) == 0 || atomic.LoadInt32(&c.closed) != atomic.LoadInt32(&c.dialed) {
+				ok = false
+			}
+		}
+		t.mu.Unlock()
+		if ok {
 			return true
 		}
 		if time.Now().After(end) {
@@ -723,7 +782,175 @@ func statusOf(lines []string) (int, bool) {
 	return st, warn
 }
 
-func runTun(tc *tcase, grace, headWait time.Duration) (out []string, timingOnly bool) {
+// env is one proxy (or a chain of two) behind one client-facing listener.
+type env struct {
+	pl      net.Listener
+	proxies []*martian.Proxy
+	trk     *tracker
+	origin  string
+	dlAddr  string
+	closers []func()
+}
+
+func (e *env) close() {
+	for i := len(e.closers) - 1; i >= 0; i-- {
+		e.closers[i]()
+	}
+}
+
+// newEnv builds the environment tc asks for; faddr is the scripted downstream proxy (via F).
+func newEnv(tc *tcase, faddr string, needOrigin bool) (*env, string) {
+	e := &env{trk: &tracker{}}
+	pl := listen()
+	e.pl = pl
+	e.closers = append(e.closers, func() { pl.Close() })
+	p := martian.NewProxy()
+	e.proxies = []*martian.Proxy{p}
+	if tc.tracked {
+		p.SetDial(e.trk.dial)
+	}
+	switch tc.via {
+	case "M":
+		dl := listen()
+		e.closers = append(e.closers, func() { dl.Close() })
+		e.dlAddr = dl.Addr().String()
+		dp := martian.NewProxy()
+		if tc.tracked {
+			dp.SetDial(e.trk.dial)
+		}
+		go dp.Serve(dl)
+		e.proxies = append(e.proxies, dp)
+		p.SetDownstreamProxy(&url.URL{Host: dl.Addr().String()})
+	case "F":
+		p.SetDownstreamProxy(&url.URL{Host: faddr})
+	}
+	var cl net.Listener = pl
+	switch tc.lkind {
+	case 's':
+		cl = tls.NewListener(pl, serverTLS())
+	case 'w':
+		cl = bareListener{pl}
+	}
+	// origin for the plain exchanges that precede the CONNECT on the same connection
+	if needOrigin || len(tc.pre) > 0 || tc.lkind == 't' {
+		ol := listen()
+		e.origin = ol.Addr().String()
+		osrv := &http.Server{Handler: http.HandlerFunc(func(rw http.ResponseWriter, req *http.Request) {
+			n, _ := strconv.Atoi(strings.TrimPrefix(req.URL.Path, "/shaped/"))
+			body := make([]byte, n)
+			fill(body, 0x5151515)
+			rw.Header().Set("Content-Length", strconv.Itoa(n))
+			rw.Header().Set("Content-Type", "application/octet-stream")
+			rw.Write(body)
+		})}
+		go osrv.Serve(ol)
+		e.closers = append(e.closers, func() { osrv.Close(); ol.Close() })
+	}
+	if tc.lkind == 't' {
+		tsl := trafficshape.NewListener(pl)
+		cfgJSON := fmt.Sprintf(`{"trafficshape":{"shapes":[{"url_regex":"http://%s/shaped","close_connections":[{"byte":%d,"count":1000000}]}]}}`, e.origin, tc.shapeAt)
+		rec := httptest.NewRecorder()
+		req, _ := http.NewRequest("POST", "/shape-traffic", strings.NewReader(cfgJSON))
+		trafficshape.NewHandler(tsl).ServeHTTP(rec, req)
+		if rec.Code != 200 {
+			e.close()
+			return nil, "shapeconfig"
+		}
+		cl = tsl
+	}
+	go p.Serve(cl)
+	return e, ""
+}
+
+func parseMulti(in []string) ([]*tcase, error) {
+	if len(in) < 4 || in[0] != "MULTI" || in[2] != "|" {
+		return nil, fmt.Errorf("multi")
+	}
+	h := fnv.New32a()
+	h.Write([]byte(strings.Join(in, " ")))
+	tracked := h.Sum32()%4 != 0
+	var tcs []*tcase
+	var cur []string
+	flush := func() error {
+		tc, err := parseTun(append([]string{"TUN", in[1]}, cur...))
+		if err != nil {
+			return err
+		}
+		if tc.via == "F" {
+			return fmt.Errorf("multi via")
+		}
+		explicit := false
+		for _, t := range cur {
+			explicit = explicit || t == "Kp" || t == "Kt"
+		}
+		if !explicit {
+			tc.tracked = tracked
+		}
+		tc.multi = true
+		tcs = append(tcs, tc)
+		cur = nil
+		return nil
+	}
+	for _, t := range in[3:] {
+		if t == "|" {
+			if err := flush(); err != nil {
+				return nil, err
+			}
+			continue
+		}
+		cur = append(cur, t)
+	}
+	if err := flush(); err != nil {
+		return nil, err
+	}
+	if len(tcs) < 2 || len(tcs) > 4 {
+		return nil, fmt.Errorf("multi count")
+	}
+	for _, tc := range tcs {
+		tc.tracked = tcs[0].tracked // one proxy, one dialer
+	}
+	return tcs, nil
+}
+
+// runMulti: several tunnels at once through one proxy and one listener.
+func runMulti(tcs []*tcase, grace, headWait time.Duration) ([]string, bool) {
+	ev, tok := newEnv(tcs[0], "", true)
+	if ev == nil {
+		return []string{tok}, false
+	}
+	defer ev.close()
+	defer func() {
+		go func() {
+			for _, q := range ev.proxies {
+				q.Close()
+			}
+		}()
+	}()
+	outs := make([][]string, len(tcs))
+	timings := make([]bool, len(tcs))
+	var wg sync.WaitGroup
+	for i := range tcs {
+		wg.Add(1)
+		go func(i int) {
+			defer wg.Done()
+			time.Sleep(time.Duration(i) * 40 * time.Millisecond) // tunnel 0 is established first
+			outs[i], timings[i] = runTun(tcs[i], grace, headWait, ev)
+		}(i)
+	}
+	wg.Wait()
+	var out []string
+	timing := false
+	for i := range tcs {
+		if i > 0 {
+			out = append(out, "|")
+		}
+		out = append(out, outs[i]...)
+		timing = timing || timings[i]
+	}
+	return out, timing
+}
+
+func runTun(tc *tcase, grace, headWait time.Duration, shared *env) (out []string, timingOnly bool) {
 	defer func() {
 		if r := recover(); r != nil {
 			out = append(out, "PANIC")
@@ -741,71 +968,25 @@ func runTun(tc *tcase, grace, headWait time.Duration) (out []string, timingOnly 
 
 	tl := listen()
 	defer tl.Close()
-	pl := listen()
-	defer pl.Close()
-	p := martian.NewProxy()
-	proxies := []*martian.Proxy{p}
-	trk := &tracker{}
-	if tc.tracked {
-		p.SetDial(trk.dial)
+	ev := shared
+	if ev == nil {
+		var tok string
+		ev, tok = newEnv(tc, tl.Addr().String(), false)
+		if ev == nil {
+			return []string{tok}, false
+		}
+		defer ev.close()
 	}
+	pl, proxies, trk, origin := ev.pl, ev.proxies, ev.trk, ev.origin
 	trk.watch(tl.Addr().String())
-	switch tc.via {
-	case "M":
-		dl := listen()
-		defer dl.Close()
-		if len(tc.pre) == 0 {
-			trk.watch(dl.Addr().String()) // with pre-exchanges the transport keeps an idle connection to it
-		}
-		dp := martian.NewProxy()
-		if tc.tracked {
-			dp.SetDial(trk.dial)
-		}
-		go dp.Serve(dl)
-		proxies = append(proxies, dp)
-		p.SetDownstreamProxy(&url.URL{Host: dl.Addr().String()})
-	case "F":
-		p.SetDownstreamProxy(&url.URL{Host: tl.Addr().String()})
+	mine := []string{tl.Addr().String()}
+	if ev.dlAddr != "" && len(tc.pre) == 0 && shared == nil {
+		trk.watch(ev.dlAddr) // with pre-exchanges the transport keeps an idle connection to it
+		mine = append(mine, ev.dlAddr)
 	}
-	var cl net.Listener = pl
-	switch tc.lkind {
-	case 's':
-		cl = tls.NewListener(pl, serverTLS())
-	case 'w':
-		cl = bareListener{pl}
-	}
-	// origin for the plain exchanges that precede the CONNECT on the same connection
-	var origin string
-	if len(tc.pre) > 0 || tc.lkind == 't' {
-		ol := listen()
-		defer ol.Close()
-		origin = ol.Addr().String()
-		osrv := &http.Server{Handler: http.HandlerFunc(func(rw http.ResponseWriter, req *http.Request) {
-			n, _ := strconv.Atoi(strings.TrimPrefix(req.URL.Path, "/shaped/"))
-			body := make([]byte, n)
-			fill(body, 0x5151515)
-			rw.Header().Set("Content-Length", strconv.Itoa(n))
-			rw.Header().Set("Content-Type", "application/octet-stream")
-			rw.Write(body)
-		})}
-		go osrv.Serve(ol)
-		defer osrv.Close()
-	}
-	if tc.lkind == 't' {
-		tsl := trafficshape.NewListener(pl)
-		cfgJSON := fmt.Sprintf(`{"trafficshape":{"shapes":[{"url_regex":"http://%s/shaped","close_connections":[{"byte":%d,"count":1000000}]}]}}`, origin, tc.shapeAt)
-		rec := httptest.NewRecorder()
-		req, _ := http.NewRequest("POST", "/shape-traffic", strings.NewReader(cfgJSON))
-		trafficshape.NewHandler(tsl).ServeHTTP(rec, req)
-		if rec.Code != 200 {
-			return []string{"shapeconfig"}, false
-		}
-		cl = tsl
-	}
-	go p.Serve(cl)
 	released := false
 	defer func() {
-		if !released {
+		if !released && shared == nil {
 			go func() {
 				for _, q := range proxies {
 					q.Close()
@@ -901,8 +1082,8 @@ func runTun(tc *tcase, grace, headWait time.Duration) (out []string, timingOnly 
 	var ce, te end
 	var rwg sync.WaitGroup
 	rwg.Add(2)
-	go ce.reader(cbr, tdata, &rwg)
-	go te.reader(tbr, cdata, &rwg)
+	go ce.reader(cbr, tdata, &rwg, tc.slowC)
+	go te.reader(tbr, cdata, &rwg, tc.slowT)
 
 	coff, toff := tc.early, tc.banner
 	cshut, tshut := false, false
@@ -948,6 +1129,9 @@ func runTun(tc *tcase, grace, headWait time.Duration) (out []string, timingOnly 
 			default:
 			}
 			cs, ts := ce.snap(), te.snap()
+			if atomic.LoadInt32(&ce.idling) == 1 || atomic.LoadInt32(&te.idling) == 1 {
+				last = time.Now() // a scripted idle period is not a stall
+			}
 			if cs != pcs || ts != pts {
 				last = time.Now()
 				pcs, pts = cs, ts
@@ -1029,7 +1213,7 @@ func runTun(tc *tcase, grace, headWait time.Duration) (out []string, timingOnly 
 			out = append(out, "Q1")
 		}
 	}
-	if cshut && tshut {
+	if cshut && tshut && shared == nil {
 		if closeWithin(proxies, grace) {
 			out = append(out, "R1")
 		} else {
@@ -1041,7 +1225,7 @@ func runTun(tc *tcase, grace, headWait time.Duration) (out []string, timingOnly 
 		out = append(out, "R-")
 	}
 	if tc.tracked && (cshut && tshut || tc.probe != 0) {
-		if trk.allClosedWithin(grace) {
+		if trk.allClosedWithin(grace, mine) {
 			out = append(out, "K1")
 		} else {
 			out = append(out, "K0")
@@ -1098,7 +1282,7 @@ func ideal(tc *tcase) []string {
 	if tc.probe != 0 {
 		out = append(out, "W1", "Q0")
 	}
-	if cshut && tshut {
+	if cshut && tshut && !tc.multi {
 		out = append(out, "R1")
 	} else {
 		out = append(out, "R-")
@@ -1185,14 +1369,40 @@ func runCase(in []string) []string {
 		}
 		grace := time.Duration(graceMS) * time.Millisecond
 		if atomic.LoadInt64(&persisted) >= persistLimit {
-			out, _ := runTun(tc, grace/5, grace/2)
+			out, _ := runTun(tc, grace/5, grace/2, nil)
 			return out
 		}
-		out, timing := runTun(tc, grace, 3*grace)
+		out, timing := runTun(tc, grace, 3*grace, nil)
 		if timing && !eq(out, ideal(tc)) {
 			atomic.AddInt64(&retried, 1)
-			out, timing = runTun(tc, 2*grace, 4*grace)
+			out, timing = runTun(tc, 2*grace, 4*grace, nil)
 			if timing && !eq(out, ideal(tc)) {
+				atomic.AddInt64(&persisted, 1)
+			}
+		}
+		return out
+	case "MULTI":
+		tcs, err := parseMulti(in)
+		if err != nil {
+			return []string{"badscript"}
+		}
+		var want []string
+		for i, tc := range tcs {
+			if i > 0 {
+				want = append(want, "|")
+			}
+			want = append(want, ideal(tc)...)
+		}
+		grace := time.Duration(graceMS) * time.Millisecond
+		if atomic.LoadInt64(&persisted) >= persistLimit {
+			out, _ := runMulti(tcs, grace/5, grace/2)
+			return out
+		}
+		out, timing := runMulti(tcs, grace, 3*grace)
+		if timing && !eq(out, want) {
+			atomic.AddInt64(&retried, 1)
+			out, timing = runMulti(tcs, 2*grace, 4*grace)
+			if timing && !eq(out, want) {
 				atomic.AddInt64(&persisted, 1)
 			}
 		}
